@@ -24,6 +24,10 @@ func main() {
 	for v, proto := range []int{2, 4, 2, 3, 2, 1} {
 		hs = append(hs, c01lib.CoalCancelHist(len(hs), proto, v))
 	}
+	// ... and contexts that expire while the Write call itself is in progress (slow client->server link)
+	for v, proto := range []int{2, 4, 2, 1} {
+		hs = append(hs, c01lib.WriteStallCancelHist(len(hs), proto, v, v != 3))
+	}
 	// a response body interrupted by 1..4 temporary read errors (fewer than Conn.Read's retries) at every cut
 	// class, with the other callers' responses following on the wire
 	for nerr := 1; nerr <= 4; nerr++ {
